@@ -15,14 +15,16 @@ vars == <<cfg, phase, appdata>>
 Init == cfg \in Configs /\ phase = "start" /\ appdata = 0
 Hello == phase = "start" /\ phase' = "hello" /\ UNCHANGED <<cfg, appdata>>
 Verify == /\ phase = "hello"
-          /\ phase' = IF cfg.ignore = "true" \/ ChainOK(cfg, DerRoots) THEN "verified" ELSE "alert"
+          /\ phase' = IF cfg.ignore = "true" \/ ChainOK(cfg, DerRoots) THEN "verified"
+                       ELSE IF Unspecified(cfg) THEN (IF cfg.backend = "rustls" THEN "alert" ELSE "verified")   \* back ends may differ
+                       ELSE "alert"
           /\ UNCHANGED <<cfg, appdata>>
 AppData == phase = "verified" /\ phase' = "done-ok" /\ appdata' = 1 /\ UNCHANGED cfg
 Fail == phase = "alert" /\ phase' = "done-err" /\ UNCHANGED <<cfg, appdata>>
 Next == Hello \/ Verify \/ AppData \/ Fail
 Spec == Init /\ [][Next]_vars /\ WF_vars(Next)
-NoDataUnlessAuthenticated == appdata > 0 => Accept(cfg)
-SuppliedRootAccepted == phase = "done-err" => ~Accept(cfg)
+NoDataUnlessAuthenticated == appdata > 0 => (Accept(cfg) \/ Unspecified(cfg))
+SuppliedRootAccepted == phase = "done-err" => (~Accept(cfg) \/ Unspecified(cfg))
 Decides == <>(phase \in {"done-ok", "done-err"})
 Gen == phase = "start" => PrintT(<<"CASE", ToJson(cfg)>>)
 =============================================================================
